@@ -118,10 +118,71 @@ Track(k) ==
   /\ Log([a |-> "track", k |-> k])
   /\ UNCHANGED <<default, tree, contents, ops>>
 
+\* C18: ill-formed calls and the exception each must be refused with; nothing changes
+SmtRejects ==
+  { [entry |-> "get", arg |-> "key", kind |-> "notbytes", exc |-> "ValidationError", needs |-> "any"],
+    [entry |-> "get", arg |-> "key", kind |-> "short", exc |-> "ValidationError", needs |-> "any"],
+    [entry |-> "get", arg |-> "key", kind |-> "long", exc |-> "ValidationError", needs |-> "any"],
+    [entry |-> "get", arg |-> "key", kind |-> "empty", exc |-> "ValidationError", needs |-> "any"],
+    [entry |-> "exists", arg |-> "key", kind |-> "notbytes", exc |-> "ValidationError", needs |-> "any"],
+    [entry |-> "exists", arg |-> "key", kind |-> "short", exc |-> "ValidationError", needs |-> "any"],
+    [entry |-> "exists", arg |-> "key", kind |-> "long", exc |-> "ValidationError", needs |-> "any"],
+    [entry |-> "exists", arg |-> "key", kind |-> "empty", exc |-> "ValidationError", needs |-> "any"],
+    [entry |-> "getitem", arg |-> "key", kind |-> "notbytes", exc |-> "ValidationError", needs |-> "any"],
+    [entry |-> "getitem", arg |-> "key", kind |-> "short", exc |-> "ValidationError", needs |-> "any"],
+    [entry |-> "getitem", arg |-> "key", kind |-> "long", exc |-> "ValidationError", needs |-> "any"],
+    [entry |-> "getitem", arg |-> "key", kind |-> "empty", exc |-> "ValidationError", needs |-> "any"],
+    [entry |-> "contains", arg |-> "key", kind |-> "notbytes", exc |-> "ValidationError", needs |-> "any"],
+    [entry |-> "contains", arg |-> "key", kind |-> "short", exc |-> "ValidationError", needs |-> "any"],
+    [entry |-> "contains", arg |-> "key", kind |-> "long", exc |-> "ValidationError", needs |-> "any"],
+    [entry |-> "contains", arg |-> "key", kind |-> "empty", exc |-> "ValidationError", needs |-> "any"],
+    [entry |-> "branch", arg |-> "key", kind |-> "notbytes", exc |-> "ValidationError", needs |-> "any"],
+    [entry |-> "branch", arg |-> "key", kind |-> "short", exc |-> "ValidationError", needs |-> "any"],
+    [entry |-> "branch", arg |-> "key", kind |-> "long", exc |-> "ValidationError", needs |-> "any"],
+    [entry |-> "branch", arg |-> "key", kind |-> "empty", exc |-> "ValidationError", needs |-> "any"],
+    [entry |-> "delete", arg |-> "key", kind |-> "notbytes", exc |-> "ValidationError", needs |-> "any"],
+    [entry |-> "delete", arg |-> "key", kind |-> "short", exc |-> "ValidationError", needs |-> "any"],
+    [entry |-> "delete", arg |-> "key", kind |-> "long", exc |-> "ValidationError", needs |-> "any"],
+    [entry |-> "delete", arg |-> "key", kind |-> "empty", exc |-> "ValidationError", needs |-> "any"],
+    [entry |-> "delitem", arg |-> "key", kind |-> "notbytes", exc |-> "ValidationError", needs |-> "any"],
+    [entry |-> "delitem", arg |-> "key", kind |-> "short", exc |-> "ValidationError", needs |-> "any"],
+    [entry |-> "delitem", arg |-> "key", kind |-> "long", exc |-> "ValidationError", needs |-> "any"],
+    [entry |-> "delitem", arg |-> "key", kind |-> "empty", exc |-> "ValidationError", needs |-> "any"],
+    [entry |-> "set", arg |-> "key", kind |-> "notbytes", exc |-> "ValidationError", needs |-> "any"],
+    [entry |-> "set", arg |-> "key", kind |-> "short", exc |-> "ValidationError", needs |-> "any"],
+    [entry |-> "set", arg |-> "key", kind |-> "long", exc |-> "ValidationError", needs |-> "any"],
+    [entry |-> "set", arg |-> "key", kind |-> "empty", exc |-> "ValidationError", needs |-> "any"],
+    [entry |-> "setitem", arg |-> "key", kind |-> "notbytes", exc |-> "ValidationError", needs |-> "any"],
+    [entry |-> "setitem", arg |-> "key", kind |-> "short", exc |-> "ValidationError", needs |-> "any"],
+    [entry |-> "setitem", arg |-> "key", kind |-> "long", exc |-> "ValidationError", needs |-> "any"],
+    [entry |-> "setitem", arg |-> "key", kind |-> "empty", exc |-> "ValidationError", needs |-> "any"],
+    [entry |-> "set", arg |-> "value", kind |-> "notbytes", exc |-> "ValidationError", needs |-> "any"],
+    [entry |-> "setitem", arg |-> "value", kind |-> "notbytes", exc |-> "ValidationError", needs |-> "any"],
+    [entry |-> "constructor", arg |-> "key_size", kind |-> "zero", exc |-> "ValidationError", needs |-> "any"],
+    [entry |-> "constructor", arg |-> "key_size", kind |-> "toolarge", exc |-> "ValidationError", needs |-> "any"],
+    [entry |-> "from_db", arg |-> "root", kind |-> "notbytes", exc |-> "ValidationError", needs |-> "any"],
+    [entry |-> "from_db", arg |-> "root", kind |-> "short", exc |-> "ValidationError", needs |-> "any"],
+    [entry |-> "from_db", arg |-> "root", kind |-> "long", exc |-> "ValidationError", needs |-> "any"],
+    [entry |-> "calc_root", arg |-> "key", kind |-> "notbytes", exc |-> "ValidationError", needs |-> "any"],
+    [entry |-> "calc_root", arg |-> "value", kind |-> "notbytes", exc |-> "ValidationError", needs |-> "any"],
+    [entry |-> "calc_root", arg |-> "branch", kind |-> "short", exc |-> "ValidationError", needs |-> "any"],
+    [entry |-> "calc_root", arg |-> "branch", kind |-> "long", exc |-> "ValidationError", needs |-> "any"],
+    [entry |-> "proof_constructor", arg |-> "key", kind |-> "notbytes", exc |-> "ValidationError", needs |-> "any"],
+    [entry |-> "proof_constructor", arg |-> "value", kind |-> "notbytes", exc |-> "ValidationError", needs |-> "any"],
+    [entry |-> "proof_constructor", arg |-> "branch", kind |-> "short", exc |-> "ValidationError", needs |-> "any"],
+    [entry |-> "proof_constructor", arg |-> "branch", kind |-> "long", exc |-> "ValidationError", needs |-> "any"],
+    [entry |-> "proof_update", arg |-> "key", kind |-> "notbytes", exc |-> "ValidationError", needs |-> "tracking"],
+    [entry |-> "proof_update", arg |-> "key", kind |-> "short", exc |-> "ValidationError", needs |-> "tracking"],
+    [entry |-> "proof_update", arg |-> "key", kind |-> "long", exc |-> "ValidationError", needs |-> "tracking"] }
+Rejected(e) == /\ (e.needs = "tracking" => tracking)
+               /\ Log([a |-> "reject", entry |-> e.entry, arg |-> e.arg, kind |-> e.kind, exc |-> e.exc])
+               /\ UNCHANGED <<default, tree, contents, tracking, tracked, pvalue, pbranch, ops>>
+NextR == \E e \in SmtRejects : Rejected(e)
 Next == \/ \E k \in Keys : \E m \in Truncations :
            (\E v \in Vals \cup {Blank, default} : Set(k, v, m)) \/ Delete(k, m)
         \/ \E k \in Keys : Track(k)
 Spec == Init /\ [][Next]_vars
+SpecR == Init /\ [][Next \/ NextR]_vars
 
 ---------------------------------------------------------------------------
 \* observables
